@@ -14,7 +14,10 @@ import (
 	"os"
 	"regexp"
 	"sort"
+	"strconv"
 	"strings"
+
+	"github.com/AsaiYusuke/jsonpath"
 )
 
 type exact struct{ ok bool }
@@ -83,6 +86,7 @@ func init() {
 		w.recordEval(&c, inner)
 	}
 	commands["gen-eval"] = genEvalMain
+	commands["lawfuzz"] = lawFuzzMain
 }
 
 func decodeDoc(text string, number bool) (interface{}, error) {
@@ -456,6 +460,14 @@ func genEvalMain(args []string) {
 		`[1e400,1,"1e400"]`, `[{"a":9223372036854775807},{"a":-9223372036854775808},{"a":9223372036854775808}]`}
 	extremePaths := []string{`$[?(@.a > 0)]`, `$[?(@.a < 1)]`, `$[?(@.a >= $[0].a)]`, `$[?(@ > 0)]`, `$[?(@ <= 1)]`, `$..[?(@.a <= 2)]`, `$[?(@.a == 1)]`,
 		`$[?(@.a != $[1].a)]`, `$[?(@.a == $[0].a)]`, `$..a`, `$[*].a`, `$[?(0 < @.a)]`, `$[?(@.a == 100)]`, `$[?(@ == 1e400)]`, `$.a[?(@ > 1)]`, `$[?(@.a > $[1].a)]`}
+	// call sequences: a retrieval with several hundred results, directly followed by queries that match nothing
+	bigd, _ := json.Marshal(bigArray)
+	for _, nomatch := range []string{`$[*].nope`, `$..nope`, `$.*[?(@.nope)]`, `$[?(@.nope)]`, `$[*][0]`, `$..[?(@.nope == 1)]`} {
+		emit(`$[*]`, string(bigd), "big-then-nomatch")
+		emit(nomatch, `[{"a":1},{"b":[2]},3]`, "big-then-nomatch")
+		emit(`$..*`, string(bigd), "big-then-nomatch")
+		emit(nomatch, `{"a":{"b":1},"c":[{"d":2}]}`, "big-then-nomatch")
+	}
 	for i := 0; i < *n; i++ {
 		var d interface{}
 		switch g.rnd.Intn(4) {
@@ -478,4 +490,96 @@ func genEvalMain(args []string) {
 		}
 		emit(p, ds, src)
 	}
+}
+
+// ---------------------------------------------------------------- C09 laws on numbers the model cannot hold
+
+// lawfuzz: the duality laws of C09 (mirror, != complement of ==, <= is < or ==) are relations between real
+// selections and need no expected values, so they can be checked on adjacent floating-point numbers, huge
+// and tiny magnitudes -- values outside the three-decimal model of the specification.
+func lawFuzzMain(args []string) {
+	fs := flag.NewFlagSet("lawfuzz", flag.ExitOnError)
+	seed := fs.Int64("seed", 1, "")
+	n := fs.Int("n", 2000, "")
+	fs.Parse(args)
+	rnd := rand.New(rand.NewSource(*seed))
+	base := []float64{0.3, 0.1 + 0.2, math.Nextafter(0.3, 1), math.Nextafter(0.3, 0), 1, math.Nextafter(1, 2), 1e-320, 0, 1e308, -1e308, 9007199254740992, 9007199254740993, 2.5, -0.0, 100, 99.99999999999999}
+	type out struct {
+		Checked    int      `json:"checked"`
+		Violations []string `json:"violations"`
+	}
+	var o out
+	fmtNum := func(f float64) string { return strconv.FormatFloat(f, 'g', -1, 64) }
+	sel := func(q string, doc interface{}, members []interface{}) ([]int, bool) {
+		r, err := jsonpath.Retrieve("$[?("+q+")]", doc)
+		if err != nil {
+			if errClass(err) == "mne" {
+				return []int{}, true
+			}
+			return nil, false
+		}
+		idx := []int{}
+		for _, v := range r {
+			for i, m := range members {
+				if snap(m) == snap(v) {
+					idx = append(idx, i)
+				}
+			}
+		}
+		return idx, true
+	}
+	for it := 0; it < *n; it++ {
+		k := 2 + rnd.Intn(5)
+		seen := map[float64]bool{}
+		var nums []float64
+		for len(nums) < k {
+			f := base[rnd.Intn(len(base))]
+			if !seen[f] {
+				seen[f] = true
+				nums = append(nums, f)
+			}
+		}
+		lit := fmtNum(base[rnd.Intn(len(base))])
+		for _, number := range []bool{false, true} {
+			parts := []string{}
+			for _, f := range nums {
+				parts = append(parts, fmtNum(f))
+			}
+			doc, err := decodeDoc("["+strings.Join(parts, ",")+"]", number)
+			if err != nil {
+				continue
+			}
+			members := doc.([]interface{})
+			n := len(members)
+			for _, op := range []string{"<=", ">="} {
+				strict := strings.TrimSuffix(op, "=")
+				for _, form := range [][2]string{{"@", lit}, {lit, "@"}} {
+					le, ok1 := sel(form[0]+op+form[1], doc, members)
+					lt, ok2 := sel(form[0]+strict+form[1], doc, members)
+					eq, ok3 := sel(form[0]+"=="+form[1], doc, members)
+					ne, ok4 := sel(form[0]+"!="+form[1], doc, members)
+					mi, ok5 := sel(form[1]+mirrorOp[op]+form[0], doc, members)
+					o.Checked++
+					if !(ok1 && ok2 && ok3 && ok4 && ok5) {
+						o.Violations = append(o.Violations, fmt.Sprintf("a filter failed unexpectedly on %s with %s %s %s", snap(doc), form[0], op, form[1]))
+						continue
+					}
+					if !sameIdx(le, setOp(lt, eq, n, "or")) {
+						o.Violations = append(o.Violations, fmt.Sprintf("on %s: %s%s%s selects %v but %s selects %v and == selects %v", snap(doc), form[0], op, form[1], le, strict, lt, eq))
+					}
+					if !sameIdx(ne, setOp(eq, nil, n, "not")) {
+						o.Violations = append(o.Violations, fmt.Sprintf("on %s: %s!=%s selects %v but == selects %v", snap(doc), form[0], form[1], ne, eq))
+					}
+					if !sameIdx(le, mi) {
+						o.Violations = append(o.Violations, fmt.Sprintf("on %s: %s%s%s selects %v but the mirrored comparison selects %v", snap(doc), form[0], op, form[1], le, mi))
+					}
+				}
+			}
+		}
+		if len(o.Violations) > 5 {
+			break
+		}
+	}
+	b, _ := json.Marshal(o)
+	os.Stdout.Write(b)
 }
